@@ -28,19 +28,20 @@ import (
 )
 
 type verifFeed struct {
-	tb         testing.TB
-	net        *verifgen.Net
-	node       *Node
-	badger     *storage.BadgerStore
-	store      storage.Store // what the node uses (may be a proxy around badger)
-	wrap       func(*storage.BadgerStore) storage.Store
-	dir        string
-	rng        *rand.Rand
-	self       int                        // index of the genesis node this replica runs as
-	cursor     uint64                     // timeline cursor for generated snapshot timestamps
-	custodians []common.Address           // custodian accounts installed by the harness after genesis
-	extraKeys  map[crypto.Hash]crypto.Key // signer keys of nodes that joined after genesis
-	pledges    int
+	tb            testing.TB
+	net           *verifgen.Net
+	node          *Node
+	badger        *storage.BadgerStore
+	store         storage.Store // what the node uses (may be a proxy around badger)
+	wrap          func(*storage.BadgerStore) storage.Store
+	dir           string
+	rng           *rand.Rand
+	self          int                        // index of the genesis node this replica runs as
+	cursor        uint64                     // timeline cursor for generated snapshot timestamps
+	custodians    []common.Address           // custodian accounts installed by the harness after genesis
+	extraKeys     map[crypto.Hash]crypto.Key // signer keys of nodes that joined after genesis
+	pledges       int
+	pledgeTwoRefs bool // every pledge carries a second reference
 }
 
 // verifEpochUnix places the network epoch well in the past so that every
@@ -416,6 +417,20 @@ type verifProxy struct {
 	// fault injection: the next n calls of a method return badger.ErrConflict without being performed (what Badger
 	// answers when a concurrent commit touched a key the call had read; the kernel retries such calls)
 	conflicts map[string]int
+	// and: the next n calls of a method fail with a plain storage error, not performed (disk trouble)
+	failures map[string]int
+}
+
+var errVerifInjected = fmt.Errorf("injected storage write failure")
+
+func (p *verifProxy) takeFailure(method string) bool {
+	p.mu.Lock()
+	defer p.mu.Unlock()
+	if p.failures[method] > 0 {
+		p.failures[method]--
+		return true
+	}
+	return false
 }
 
 func (p *verifProxy) takeConflict(method string) bool {
@@ -492,12 +507,20 @@ func (p *verifProxy) WriteTransaction(tx *common.VersionedTransaction) error {
 }
 func (p *verifProxy) StartNewRound(node crypto.Hash, number uint64, references *common.RoundLink, finalStart uint64) error {
 	i := p.enter("StartNewRound", fmt.Sprintf("%s:%d", node.String()[:8], number))
+	if p.takeFailure("StartNewRound") {
+		p.leave(i, "StartNewRound")
+		return errVerifInjected
+	}
 	err := p.Store.StartNewRound(node, number, references, finalStart)
 	p.leave(i, "StartNewRound")
 	return err
 }
 func (p *verifProxy) UpdateEmptyHeadRound(node crypto.Hash, number uint64, references *common.RoundLink) error {
 	i := p.enter("UpdateEmptyHeadRound", fmt.Sprintf("%s:%d", node.String()[:8], number))
+	if p.takeFailure("UpdateEmptyHeadRound") {
+		p.leave(i, "UpdateEmptyHeadRound")
+		return errVerifInjected
+	}
 	err := p.Store.UpdateEmptyHeadRound(node, number, references)
 	p.leave(i, "UpdateEmptyHeadRound")
 	return err
